@@ -446,9 +446,10 @@ func (s *Store[H]) flushLoop(ctx context.Context) {
 	defer close(s.writesDn)
 
 	flush := func(headers []H) {
-		s.ensureInit(headers)
 		// add headers to the pending and ensure they are accessible
+		// before Head or Tail can point at them
 		s.pending.Append(headers...)
+		s.ensureInit(headers)
 		// always inform heightSub about new headers seen.
 		s.heightSub.Notify(getHeights(headers...)...)
 		// advance head and tail if we don't have gaps.
